@@ -2,18 +2,19 @@ package main
 
 import (
 	"fmt"
-	"strings"
 	"verif/checker/eng"
-	"verif/checker/rules"
+	"golang.org/x/tools/go/ssa"
 )
 
 func main() {
 	p, err := eng.Load(eng.LoadConfig{})
 	if err != nil { panic(err) }
-	for _, n := range []string{"layout.(*ColumnDetector).validateColumns", "rag.(*Chunker).buildSections"} {
-		for _, r := range rules.AnalyseLoopsDebug(p, n) {
-			fmt.Println(n, r.Elem, "transfers", r.Transfers)
-			for _, s := range r.Skips { fmt.Println("   skip empty=", s.Empty, strings.Join(s.Conds, " && ")) }
-		}
-	}
+	fn := p.Func("core.(*XRefParser).parseXRefStream")
+	eng.Instrs(fn, false, func(in ssa.Instruction) {
+		st, ok := in.(*ssa.Store)
+		if !ok { return }
+		ia, ok := st.Addr.(*ssa.IndexAddr)
+		if !ok { return }
+		fmt.Printf("store to %T %v val %T\n", ia.X, ia.X, st.Val)
+	})
 }
